@@ -24,6 +24,7 @@ type Obl struct {
 	Goal      *Term
 	ExpectSat bool   // vacuity cover: must be SAT
 	Decls     string // filled at emit time
+	D         *Decls
 	Axioms    []*Term
 	Trace     []string
 	Inputs    []ModelVar
@@ -539,6 +540,10 @@ func (x *Exec) loopHeader(fr *Frame, st *State, b, pred *ssa.BasicBlock, li *loo
 		g := x.specBool(env, c.E)
 		x.emit(st, "inv", fmt.Sprintf("%s:%s:%d", lname, kind, i), g, false, c.Line)
 	}
+	// implicit invariant of range-over-slice loops: the hidden index is at least -1
+	if g := x.rangeIndexInv(fr, b); g != nil {
+		x.emit(st, "inv", fmt.Sprintf("%s:%s:rangeindex", lname, kind), g, false, "")
+	}
 	if fromInside {
 		if dec != nil {
 			snap := fr.loopSnap[b.Index]
@@ -570,6 +575,9 @@ func (x *Exec) loopHeader(fr *Frame, st *State, b, pred *ssa.BasicBlock, li *loo
 	env = x.loopEnv(fr, st, b)
 	for _, c := range invs {
 		st.Assume(x.specBool(env, c.E))
+	}
+	if g := x.rangeIndexInv(fr, b); g != nil {
+		st.Assume(g)
 	}
 	if dec != nil {
 		d, _ := x.specMeasure(env, dec.E)
@@ -645,19 +653,34 @@ func (x *Exec) havocLoopHeap(fr *Frame, st *State, li *loopInfo) {
 	all := false
 	nonLocal := false
 	names := map[string]bool{}
+	writesOld := map[string]bool{} // arrays that may be written at objects that existed at entry
 	for b := range li.blocks {
 		for _, ins := range b.Instrs {
 			switch i := ins.(type) {
 			case *ssa.Store:
+				local := storeRootIsLocal(i.Addr)
 				for _, n := range x.arraysOfStore(i.Addr) {
 					names[n] = true
+					if !local {
+						writesOld[n] = true
+					}
 				}
-				if !storeRootIsLocal(i.Addr) {
+				if !local {
 					nonLocal = true
 				}
 			case *ssa.MapUpdate:
 				all = true
 			case ssa.CallInstruction:
+				if fn := i.Common().StaticCallee(); fn != nil && strings.HasPrefix(funcKey(fn), "math/big.") && !i.Common().IsInvoke() {
+					// big-integer intrinsics write only the abstract value of their receiver
+					names["BigVal"] = true
+					if len(i.Common().Args) == 0 || !bigFreshRooted(i.Common().Args[0], 0) {
+						if funcKey(fn) != "math/big.NewInt" {
+							writesOld["BigVal"] = true
+						}
+					}
+					continue
+				}
 				if x.callMayWriteHeap(i.Common()) {
 					all = true
 				}
@@ -673,7 +696,20 @@ func (x *Exec) havocLoopHeap(fr *Frame, st *State, li *loopInfo) {
 		for n := range st.heap {
 			for pfx := range names {
 				if n == pfx || strings.HasPrefix(n, pfx+".") {
+					old := st.heap[n]
 					x.heapHavoc(st, n)
+					if !writesOld[pfx] && old.Sort.Idx.K == KInt {
+						// every store to this array inside the loop targets an object allocated during this
+						// run, so memory that existed at entry still reads as before the loop
+						base := old
+						if c := st.fwd[n]; c != nil && c.arr == old.S && c.allFresh && c.base != nil {
+							base = c.base
+						}
+						if st.fwd == nil {
+							st.fwd = map[string]*fwdCache{}
+						}
+						st.fwd[n] = &fwdCache{arr: st.heap[n].S, ent: map[string]*Term{}, base: base, allFresh: true}
+					}
 				}
 			}
 		}
